@@ -8,6 +8,7 @@ cache model + access counts.  Part 2: two threads under the deterministic schedu
 import itertools
 import re
 
+import copy
 import sys
 import threading
 import time
@@ -206,6 +207,7 @@ def run_events(events, acc):
     pending_deny = [False]
     block_faulted = [False]
     calls_in_block = {}
+    handed_out = {}
 
     def rule(kind, path):
         if pending_deny[0] and path.startswith("/vproc/50/") and kind in ("open", "listdir", "readlink"):
@@ -284,6 +286,21 @@ def run_events(events, acc):
                 try:
                     val = getattr(pr, m)()
                     res = ("ok", val)
+                    if isinstance(val, (list, dict)):
+                        # the caller owns what it was handed: scribbling on it must not change any later answer
+                        snap = copy.deepcopy(val)
+                        if m == "cmdline" and snap != ["/bin/stamped"]:
+                            mech = "cmdline_wrong"
+                            if "cmdline" in handed_out:
+                                mech = "answer_changed_after_caller_modified_earlier_result:cmdline"
+                            viols.append((mech, ctx + f" cmdline() -> {snap!r}"))
+                        handed_out[m] = snap
+                        acc.count("mutable_results_scribbled")
+                        val.clear()
+                        if isinstance(val, list):
+                            val.append("scribble")
+                        val = snap
+                        res = ("ok", snap)
                 except ps.ZombieProcess:
                     res = ("ZombieProcess", None)
                 except ps.NoSuchProcess:
